@@ -128,4 +128,107 @@ example : Filter.render exNested =
      40, 124, 40, 115, 110, 61, 120, 42, 121, 42, 122, 41, 40, 33, 40, 117, 105, 100, 62, 61, 49, 41, 41, 41,
      40, 109, 97, 105, 108, 61, 42, 41, 41] := by decide
 
+/-! ### the repair is conservative, frame by frame
+
+The decode functions use `Env.decompile` in exactly one place (`searchParameters`); everything else depends on the
+environment through `Env.ext` only. So a decompiler that answers wherever another one answers, with the same answer,
+gives a decoder that delivers wherever the other one delivers, the same message. -/
+
+section
+variable (ext : Nat → Bytes → Bool) (d₁ d₂ : Node → Option Bytes)
+
+theorem decodeControl_dec (g : Guards) (n : Node) : decodeControl ⟨ext, d₁⟩ g n = decodeControl ⟨ext, d₂⟩ g n := rfl
+
+theorem decodeControls_dec (g : Guards) : ∀ ns : List Node, decodeControls ⟨ext, d₁⟩ g ns = decodeControls ⟨ext, d₂⟩ g ns
+  | [] => rfl
+  | n :: ns => by simp only [decodeControls, decodeControl_dec ext d₁ d₂ g n, decodeControls_dec g ns]
+
+theorem controlsOf_dec (g : Guards) (p : Node) : controlsOf ⟨ext, d₁⟩ g p = controlsOf ⟨ext, d₂⟩ g p := by
+  simp only [controlsOf, decodeControls_dec ext d₁ d₂]
+
+theorem simpleBind_dec (g : Guards) (p : Node) : simpleBindParameters ⟨ext, d₁⟩ g p = simpleBindParameters ⟨ext, d₂⟩ g p := by
+  simp only [simpleBindParameters, controlsOf_dec ext d₁ d₂]
+theorem modify_dec (g : Guards) (p : Node) : modifyParameters ⟨ext, d₁⟩ g p = modifyParameters ⟨ext, d₂⟩ g p := by
+  simp only [modifyParameters, controlsOf_dec ext d₁ d₂]
+theorem add_dec (g : Guards) (p : Node) : addParameters ⟨ext, d₁⟩ g p = addParameters ⟨ext, d₂⟩ g p := by
+  simp only [addParameters, controlsOf_dec ext d₁ d₂]
+theorem delete_dec (g : Guards) (p : Node) : deleteParameters ⟨ext, d₁⟩ g p = deleteParameters ⟨ext, d₂⟩ g p := by
+  simp only [deleteParameters, controlsOf_dec ext d₁ d₂]
+
+end
+
+theorem bind_mono {α β} (x : Outcome α) (k₁ k₂ : α → Outcome β) (b : β)
+    (hk : ∀ a, k₁ a = .ok b → k₂ a = .ok b) (h : (x >>= k₁) = .ok b) : (x >>= k₂) = .ok b := by
+  cases x with
+  | ok a => exact hk a h
+  | err => simp [bind] at h
+  | panic => simp [bind] at h
+
+theorem search_mono (ext : Nat → Bytes → Bool) (d₁ d₂ : Node → Option Bytes)
+    (hm : ∀ f s, d₁ f = some s → d₂ f = some s) (g : Guards) (p : Node) (s : SearchParams)
+    (h : searchParameters ⟨ext, d₁⟩ g p = .ok s) : searchParameters ⟨ext, d₂⟩ g p = .ok s := by
+  unfold searchParameters at h ⊢
+  refine bind_mono _ _ _ _ ?_ h
+  intro r h
+  split at h
+  · simp at h
+  rename_i htag
+  rw [if_neg htag]
+  refine bind_mono _ _ _ _ ?_ h; intro baseDN h
+  refine bind_mono _ _ _ _ ?_ h; intro scope h
+  refine bind_mono _ _ _ _ ?_ h; intro deref h
+  refine bind_mono _ _ _ _ ?_ h; intro size h
+  refine bind_mono _ _ _ _ ?_ h; intro time h
+  refine bind_mono _ _ _ _ ?_ h; intro ty h
+  cases hf : r.kids[Generated.searchParmeters_childFilter]? with
+  | none => simp [hf] at h
+  | some f =>
+    simp only [hf] at h ⊢
+    cases hd : d₁ f with
+    | none => simp [hd] at h
+    | some flt =>
+      rw [hm f flt hd]
+      simp only [hd] at h ⊢
+      rw [← controlsOf_dec ext d₁ d₂]
+      exact h
+
+
+theorem bind_mono_left {α β} (x₁ x₂ : Outcome α) (k : α → Outcome β) (b : β)
+    (hx : ∀ a, x₁ = .ok a → x₂ = .ok a) (h : (x₁ >>= k) = .ok b) : (x₂ >>= k) = .ok b := by
+  cases x₁ with
+  | ok a => rw [hx a rfl]; exact h
+  | err => simp [bind] at h
+  | panic => simp [bind] at h
+
+theorem newMessage_mono (ext : Nat → Bytes → Bool) (d₁ d₂ : Node → Option Bytes)
+    (hm : ∀ f s, d₁ f = some s → d₂ f = some s) (g : Guards) (p : Node) (m : Msg)
+    (h : newMessage ⟨ext, d₁⟩ g p = .ok m) : newMessage ⟨ext, d₂⟩ g p = .ok m := by
+  unfold newMessage at h ⊢
+  refine bind_mono _ _ _ _ ?_ h; intro ty h
+  refine bind_mono _ _ _ _ ?_ h; intro id h
+  cases ty with
+  | unbind => exact h
+  | bind => simp only [] at h ⊢; rw [← simpleBind_dec ext d₁ d₂]; exact h
+  | search => simp only [] at h ⊢; exact bind_mono_left _ _ _ _ (fun s hs => search_mono ext d₁ d₂ hm g p s hs) h
+  | extended => exact h
+  | modify => simp only [] at h ⊢; rw [← modify_dec ext d₁ d₂]; exact h
+  | add => simp only [] at h ⊢; rw [← add_dec ext d₁ d₂]; exact h
+  | delete => simp only [] at h ⊢; rw [← delete_dec ext d₁ d₂]; exact h
+
+/-- whatever message the pre-fix source delivered for a frame - ANY byte string, hostile ones included - the
+    repaired source delivers the same message: the repair only turns rejections into deliveries -/
+theorem C01_fix_conservative (ext : Nat → Bytes → Bool) (g : Guards) (bs : Bytes) (m : Msg)
+    (h : serveFrame ⟨ext, Filter.decompile false⟩ g bs = .ok m) : serveFrame ⟨ext, Filter.decompile true⟩ g bs = .ok m := by
+  unfold serveFrame at h ⊢
+  cases hr : readPacket ext bs with
+  | none => simp [hr] at h
+  | some pr =>
+    simp only [hr] at h ⊢
+    split at h
+    · simp at h
+    · rename_i hb
+      rw [if_neg hb]
+      exact newMessage_mono ext _ _ Filter.decompile_mono g pr.1 m h
+
+
 end Gldap
